@@ -112,9 +112,42 @@ def texts(maxlen, alphabet):
             yield "".join(tup)
 
 
+def long_texts(length, count):
+    """different texts of exactly the same (large) length whose newlines sit at different offsets; generated one after
+    the other so that each is freed before the next is built - the pattern of a scan reading file after file. A memo keyed
+    on object identity and length would serve one text the line table of another."""
+    for k in range(count):
+        width = 7 + (k * 5) % 23  # line width varies with k
+        line = ("v%d = f(%d); " % (k, k))
+        body = []
+        total = 0
+        i = 0
+        while total < length:
+            piece = (line * 4)[: width + (i * (k + 3)) % 11] + "\n"
+            body.append(piece)
+            total += len(piece)
+            i += 1
+        text = "".join(body)[:length - 1] + "\n"
+        yield text
+
+
 def _block(block, agg):
     lang, n, alphabet, first = block
     lexer = lexer_for(lang)
+    if first == "LONG":
+        for length in (2048, 3000, 4096):
+            gen = long_texts(length, n)
+            while True:
+                text = next(gen, None)
+                if text is None:
+                    break
+                cnt, viol = eval_text(lang, lexer, text, False)
+                case = {"language": lang, "text": f"<long text #{length}>", "filter_comments": False}
+                agg.case({"language": lang, "long": length, "digest": core.digest(text)}, True, "long", sample=False)
+                for k, sig, d in viol:
+                    agg.violation(k, dict(sig, family="long-equal-length-texts"), {"language": lang, "long": [length, n]}, d)
+                del text
+        return
     if first is None:
         it = list(EXTRA_TEXTS)
     else:
@@ -129,6 +162,10 @@ def _block(block, agg):
 
 
 def replay(case):
+    if "long" in case:
+        agg = core.Agg()
+        _block((case["language"], case["long"][1], None, "LONG"), agg)
+        return [r for lst in agg.violations.values() for _, r in lst]
     _, viol = eval_text(case["language"], lexer_for(case["language"]), case["text"], case["filter_comments"])
     return [{"kind": k, "sig": s, "detail": d} for k, s, d in viol]
 
@@ -145,6 +182,7 @@ def run(ctx: core.Ctx):
     blocks = []
     for lang in FILENAMES:
         blocks.append((lang, 0, alphabet, None))
+        blocks.append((lang, ctx.pick(30, 120), None, "LONG"))
         for first in alphabet:
             blocks.append((lang, n, alphabet, first))
         if n > 5:
